@@ -263,10 +263,11 @@ def run_unit(name, fn, max_paths=200000, max_seconds=600, sample_limit=2, trace_
                     return rb, mb
                 return (z3.unknown if z3.unknown in (ra, rb) else z3.unsat), None
 
-            easy = [i for i in range(len(claims)) if claims[i][0] not in adaptive['hard']]
-            hard = [i for i in range(len(claims)) if claims[i][0] in adaptive['hard']]
+            alive = [i for i in range(len(claims)) if not z3.is_false(z3.simplify(neg[i]))]
+            easy = [i for i in alive if claims[i][0] not in adaptive['hard']]
+            hard = [i for i in alive if claims[i][0] in adaptive['hard']]
             r0, m = z3.unsat, None
-            ch = adaptive['chunk'] or len(easy) or 1
+            ch = adaptive['chunk'] or 12
             for grp in [easy[j:j + ch] for j in range(0, len(easy), ch)] + [[i] for i in hard]:
                 if not grp:
                     continue
